@@ -87,17 +87,18 @@ Qed.
 
 Definition key_of_cmd (c : cmd) (e : entry) : Prop := e_origin e = c_origin c /\ e_id e = c_id c.
 
-(** [past]: acceptances so far; [lo]: the instant of the latest step.
-    Every accepted command verified when it was accepted, and either its key
-    is still in the cache with a SeenAt not before the acceptance, or more
-    than the expiry has passed since. *)
+(** [past]: acceptances so far, each with the instant of its marking; [lo]:
+    the instant of the latest step.  Every accepted command passed its
+    timestamp check at some instant not after its marking, and either its key
+    is still in the cache with a SeenAt not before the marking, or more than
+    the expiry has passed since the marking. *)
 Definition inv (cfg : fcfg) (ca : list entry) (past : list (Z * cmd)) (lo : Z) : Prop :=
   (forall t1 c1, In (t1, c1) past ->
-      in_window cfg t1 (c_ts c1) /\ t1 <= lo /\
+      (exists v1, v1 <= t1 /\ in_window cfg v1 (c_ts c1)) /\ t1 <= lo /\
       ((exists e, In e ca /\ key_of_cmd c1 e /\ t1 <= e_at e) \/ sleep_expiry cfg < lo - t1)) /\
   (forall e, In e ca -> e_at e <= lo).
 
-Lemma expiry_ge_two_windows : forall cfg, 2 * f_window cfg <= sleep_expiry cfg.
+Lemma expiry_ge_two_windows : forall cfg, 2 * f_window cfg + mark_slack <= sleep_expiry cfg.
 Proof. intros. unfold sleep_expiry. lia. Qed.
 
 (** two instants at which the same timestamp is inside the window are at most
@@ -105,15 +106,22 @@ Proof. intros. unfold sleep_expiry. lia. Qed.
 Lemma in_window_span : forall cfg t1 t2 ts, in_window cfg t1 ts -> in_window cfg t2 ts -> t2 - t1 <= 2 * f_window cfg.
 Proof. unfold in_window. intros. lia. Qed.
 
-(** the history's instants: nondecreasing from [lo], all sane, commands well formed *)
+(** the history's instants (of the markings and cleanup passes) are
+    nondecreasing from [lo] *)
 Fixpoint ordered (lo : Z) (h : list (Z * fop)) : Prop :=
   match h with
   | [] => True
   | (t, _) :: r => lo <= t /\ ordered t r
   end.
 
+(** clock and window are sane at every timestamp check, commands are well
+    formed, and a handler marks at most [mark_slack] after its timestamp check *)
 Definition hist_ok (cfg : fcfg) (h : list (Z * fop)) : Prop :=
-  forall t o, In (t, o) h -> sane cfg t /\ match o with ORecv _ c => wf_cmd c | OCleanup _ => True end.
+  forall t o, In (t, o) h ->
+    match o with
+    | ORecv _ c d => sane cfg (t - d) /\ wf_cmd c /\ 0 <= d <= mark_slack
+    | OCleanup _ => True
+    end.
 
 Lemma expire_keeps : forall now ex ca e, In e (expire now ex ca) <-> In e ca /\ now - e_at e <= ex.
 Proof.
@@ -129,6 +137,14 @@ Proof.
   apply Z.leb_gt in E. lia.
 Qed.
 
+Lemma handle_split_accepts_only_verified : forall cfg v m peers from c ca ca' tg,
+  handle_split cfg v m peers from c ca = (ca', Some tg) -> verify cfg v c = true.
+Proof.
+  intros cfg v m peers from c ca ca' tg H. unfold handle_split in H.
+  destruct (existsb (N.eqb (f_local cfg)) (c_seenby c)); [discriminate|].
+  destruct (verify cfg v c); [reflexivity|discriminate].
+Qed.
+
 (** ** At most once *)
 
 Lemma run_at_most_once_gen : forall cfg peers, f_signing cfg = true ->
@@ -142,31 +158,32 @@ Proof.
   - cbn in Hrun. inversion Hrun; subst. rewrite app_nil_r. exact Hnd.
   - destruct Hord as [Hlo Hord].
     assert (Hok' : hist_ok cfg r) by (intros t o' Hin; apply Hok; right; exact Hin).
-    destruct (Hok now o (or_introl eq_refl)) as [Hsane Hwf].
+    pose proof (Hok now o (or_introl eq_refl)) as Hthis.
     destruct Hinv as [Hpast Hbound].
-    destruct o as [from c|v]; cbn [run run_with] in Hrun.
-    + (* delivery *)
+    destruct o as [from c d|v]; cbn [run run_with] in Hrun.
+    + (* delivery: timestamp check at now - d, marking at now *)
+      destruct Hthis as (Hsane & Hwf & Hd).
       fold (run cfg peers) in Hrun.
-      destruct (handle cfg now peers from c ca) as [ca' res] eqn:Hh.
+      destruct (handle_split cfg (now - d) now peers from c ca) as [ca' res] eqn:Hh.
       destruct (run cfg peers ca' r) as [acc' ov] eqn:Hr.
       assert (Hca' : forall e, In e ca -> exists e', In e' ca' /\ same_key e' e /\ (e_at e' = e_at e \/ e_at e' = now)).
-      { unfold handle in Hh.
+      { unfold handle_split in Hh.
         destruct (existsb (N.eqb (f_local cfg)) (c_seenby c)); [inversion Hh; subst; intros e He; exists e; repeat split; auto|].
-        destruct (negb (verify cfg now c)); [inversion Hh; subst; intros e He; exists e; repeat split; auto|].
+        destruct (negb (verify cfg (now - d) c)); [inversion Hh; subst; intros e He; exists e; repeat split; auto|].
         destruct (mark now (c_origin c) (c_id c) from ca) as [cm fresh] eqn:M.
         assert (ca' = cm) by (destruct fresh; inversion Hh; reflexivity). subst cm.
         eapply mark_keeps; eauto. }
       assert (Hb' : forall e', In e' ca' -> e_at e' <= now).
-      { unfold handle in Hh.
+      { unfold handle_split in Hh.
         destruct (existsb (N.eqb (f_local cfg)) (c_seenby c)); [inversion Hh; subst; intros e He; specialize (Hbound e He); lia|].
-        destruct (negb (verify cfg now c)); [inversion Hh; subst; intros e He; specialize (Hbound e He); lia|].
+        destruct (negb (verify cfg (now - d) c)); [inversion Hh; subst; intros e He; specialize (Hbound e He); lia|].
         destruct (mark now (c_origin c) (c_id c) from ca) as [cm fresh] eqn:M.
         assert (ca' = cm) by (destruct fresh; inversion Hh; reflexivity). subst cm.
         intros e' He'. destruct (mark_bounds _ _ _ _ _ _ _ M e' He') as [->|(e & He & ->)]; [lia|].
         specialize (Hbound e He). lia. }
       (* the old acceptances still satisfy the invariant at [now] *)
       assert (Hpast' : forall t1 c1, In (t1, c1) past ->
-                in_window cfg t1 (c_ts c1) /\ t1 <= now /\
+                (exists v1, v1 <= t1 /\ in_window cfg v1 (c_ts c1)) /\ t1 <= now /\
                 ((exists e, In e ca' /\ key_of_cmd c1 e /\ t1 <= e_at e) \/ sleep_expiry cfg < now - t1)).
       { intros t1 c1 Hin. destruct (Hpast t1 c1 Hin) as (Hw & Ht & [(e & He & Hk & Hat)|Hex]).
         - split; [exact Hw|]. split; [lia|]. left.
@@ -178,9 +195,9 @@ Proof.
       destruct res as [tg|].
       * (* accepted *)
         inversion Hrun; subst acc ov; clear Hrun.
-        pose proof (handle_accepts_only_verified _ _ _ _ _ _ _ _ Hh) as Hv.
+        pose proof (handle_split_accepts_only_verified _ _ _ _ _ _ _ _ _ Hh) as Hv.
         pose proof (verify_sound _ _ _ Hs Hsane Hwf Hv) as (_ & _ & Hwin).
-        unfold handle in Hh.
+        unfold handle_split in Hh.
         destruct (existsb (N.eqb (f_local cfg)) (c_seenby c)); [discriminate|].
         rewrite Hv in Hh. cbn [negb] in Hh.
         destruct (mark now (c_origin c) (c_id c) from ca) as [cm fresh] eqn:M.
@@ -190,7 +207,7 @@ Proof.
         assert (Hnew : ~ In (cmd_id c) (map (fun p => cmd_id (snd p)) past)).
         { intros Hin. apply in_map_iff in Hin as ([t1 c1] & Hid & Hin). cbn [snd] in Hid.
           unfold cmd_id in Hid. inversion Hid as [[Ho Hi Hts]].
-          destruct (Hpast t1 c1 Hin) as (Hw1 & Ht1 & [(e & He & [Hko Hki] & Hat)|Hex]).
+          destruct (Hpast t1 c1 Hin) as ((v1 & Hv1 & Hw1) & Ht1 & [(e & He & [Hko Hki] & Hat)|Hex]).
           - specialize (Hnokey e He). assert (key_eqb (c_origin c) (c_id c) e = true).
             { apply key_eqb_true. split; congruence. }
             congruence.
@@ -201,7 +218,7 @@ Proof.
         -- split; [|exact Hb'].
            intros t1 c1 Hin. apply in_app_or in Hin as [Hin|[Heq|[]]].
            ++ apply Hpast'. exact Hin.
-           ++ inversion Heq; subst t1 c1. split; [exact Hwin|]. split; [lia|]. left.
+           ++ inversion Heq; subst t1 c1. split; [exists (now - d); split; [lia|exact Hwin]|]. split; [lia|]. left.
               exists (mkentry (c_origin c) (c_id c) now from). split; [rewrite Happ; apply in_or_app; right; left; reflexivity|].
               split; [split; reflexivity|cbn; lia].
         -- rewrite map_app. cbn [map snd]. apply NoDup_app_single; assumption.
@@ -228,9 +245,11 @@ Proof.
 Qed.
 
 (** For every history (deliveries of genuine, replayed and forged commands
-    from any peers, cleanup passes with any eviction oracle) that starts with
-    an empty cache, has nondecreasing instants and never overflows the cache:
-    no signed content (origin, id, timestamp) is accepted twice. *)
+    from any peers, each handler's marking up to [mark_slack] after its
+    timestamp check and interleaved with other handlers and cleanup passes with
+    any eviction oracle) that starts with an empty cache, has nondecreasing
+    instants and never overflows the cache: no signed content (origin, id,
+    timestamp) is accepted twice. *)
 Theorem at_most_once : forall cfg peers h acc t0,
   f_signing cfg = true -> ordered t0 h -> hist_ok cfg h ->
   run cfg peers [] h = (acc, false) ->
@@ -259,34 +278,60 @@ Definition junk (i : N) : cmd := mkcmd 11 i 946684800 true false [].
 
 (** replay after the cache entry expired, still inside the window *)
 Definition hist_ttl : list (Z * fop) :=
-  [ (T0, ORecv 1 ahead_cmd);
+  [ (T0, ORecv 1 ahead_cmd 0);
     (T0 + 150 * second, OCleanup []); (T0 + 300 * second, OCleanup []); (T0 + 450 * second, OCleanup []);
-    (T0 + 451 * second, ORecv 2 ahead_cmd) ].
+    (T0 + 451 * second, ORecv 2 ahead_cmd 0) ].
+
+Lemma hist_ttl_ok : ordered T0 hist_ttl /\ hist_ok (default_cfg true) hist_ttl.
+Proof.
+  split; [vm_compute; intuition congruence|].
+  intros t o Hin. unfold hist_ttl in Hin.
+  repeat (destruct Hin as [Hin|Hin]; [inversion Hin; subst; cbn match; try exact I; (split; [unfold sane; vm_compute; intuition congruence|split; [vm_compute; reflexivity|vm_compute; intuition congruence]])|]).
+  destruct Hin.
+Qed.
 
 Lemma refuted_ttl_lt_validity_pre_fix :
   ordered T0 hist_ttl /\ hist_ok (default_cfg true) hist_ttl /\
   run_pre_fix (default_cfg true) model_peers [] hist_ttl
   = ([(T0, ahead_cmd); (T0 + 451 * second, ahead_cmd)], false).
-Proof.
-  split; [vm_compute; intuition congruence|]. split; [|vm_compute; reflexivity].
-  intros t o Hin. unfold hist_ttl in Hin.
-  repeat (destruct Hin as [Hin|Hin]; [inversion Hin; subst; split; [unfold sane; vm_compute; intuition congruence|try exact I; vm_compute; reflexivity]|]).
-  destruct Hin.
-Qed.
+Proof. destruct hist_ttl_ok as [H1 H2]. split; [exact H1|]. split; [exact H2|]. vm_compute. reflexivity. Qed.
 
 Example ttl_history_repaired :
   run (default_cfg true) model_peers [] hist_ttl = ([(T0, ahead_cmd)], false).
 Proof. vm_compute. reflexivity. Qed.
+
+(** the race the slack is for: the replay's timestamp check passes at the last
+    valid instant, the original's entry is 600.001 s old at the cleanup pass
+    that runs before the replay is marked.  With an expiry of exactly twice
+    the window the replay would be accepted. *)
+Definition hist_race : list (Z * fop) :=
+  [ (T0, ORecv 1 ahead_cmd 0);
+    (T0 + 600 * second + 1000000, OCleanup []);
+    (T0 + 600 * second + 2000000, ORecv 2 ahead_cmd 2000000) ].
+
+Example race_history_repaired :
+  ordered T0 hist_race /\ hist_ok (default_cfg true) hist_race /\
+  run (default_cfg true) model_peers [] hist_race = ([(T0, ahead_cmd)], false) /\
+  (* without the slack: *)
+  run_with handle_split (fun cfg => Z.max (f_ttl cfg) (2 * f_window cfg)) (default_cfg true) model_peers [] hist_race
+  = ([(T0, ahead_cmd); (T0 + 600 * second + 2000000, ahead_cmd)], false).
+Proof.
+  split; [vm_compute; intuition congruence|]. split.
+  - intros t o Hin. unfold hist_race in Hin.
+    repeat (destruct Hin as [Hin|Hin]; [inversion Hin; subst; cbn match; try exact I; (split; [unfold sane; vm_compute; intuition congruence|split; [vm_compute; reflexivity|vm_compute; intuition congruence]])|]).
+    destruct Hin.
+  - split; vm_compute; reflexivity.
+Qed.
 
 (** cache flooded with forged commands (small cache for the witness: 2
     entries), eviction picks the genuine entry, replay *)
 Definition small_cfg : fcfg := mkfcfg 0 true (300 * second) (300 * second) 2.
 Definition now_cmd : cmd := mkcmd 10 3 946684800 false true [].
 Definition hist_flood : list (Z * fop) :=
-  [ (T0, ORecv 1 now_cmd);
-    (T0 + 1, ORecv 2 (junk 100)); (T0 + 2, ORecv 2 (junk 101)); (T0 + 3, ORecv 3 (junk 102));
+  [ (T0, ORecv 1 now_cmd 0);
+    (T0 + 1, ORecv 2 (junk 100) 0); (T0 + 2, ORecv 2 (junk 101) 0); (T0 + 3, ORecv 3 (junk 102) 0);
     (T0 + 150 * second, OCleanup [0%nat; 0%nat]);
-    (T0 + 151 * second, ORecv 2 now_cmd) ].
+    (T0 + 151 * second, ORecv 2 now_cmd 0) ].
 
 Lemma refuted_flood_evict_pre_fix :
   ordered T0 hist_flood /\
@@ -298,12 +343,12 @@ Example flood_history_repaired :
 Proof. vm_compute. reflexivity. Qed.
 
 (** non-vacuity of [at_most_once]: a history with a replay from another
-    peer, a forged copy and cleanup passes satisfies every hypothesis and the
-    genuine command is accepted (once). *)
+    peer and cleanup passes satisfies every hypothesis and the genuine command
+    is accepted (once). *)
 Example at_most_once_nonvacuous :
   ordered T0 hist_ttl /\ hist_ok (default_cfg true) hist_ttl /\ f_signing (default_cfg true) = true /\
   run (default_cfg true) model_peers [] hist_ttl = ([(T0, ahead_cmd)], false).
 Proof.
-  destruct refuted_ttl_lt_validity_pre_fix as (H1 & H2 & _).
+  destruct hist_ttl_ok as (H1 & H2).
   split; [exact H1|]. split; [exact H2|]. split; [reflexivity|vm_compute; reflexivity].
 Qed.
